@@ -29,8 +29,8 @@ def run_check(pid: str, tier: str, seed: int, root: str = None, overrides=None, 
         print(f"ANALYSIS-ERROR property={pid}: no rule module")
         return 2
     try:
-        ctx = Ctx(root=root, overrides=overrides, tier=tier, seed=seed)
         rep = Report(pid, tier, seed)
+        ctx = Ctx(root=root, overrides=overrides, tier=tier, seed=seed)
         mod.check(ctx, rep)
         if tier == "thorough" and hasattr(mod, "thorough"):
             mod.thorough(ctx, rep)
